@@ -130,6 +130,9 @@ def run(ctx):
     nm = substitute_compat(ctx, 'D3')
     ctx.floor('C12 memmap-only attribute uses', nm, 1)
     d5_contexts(ctx)
+    # a[idx] has the shape that is on disk now: the opener takes shape/dtype from a description re-read on every access
+    from .C18 import arrayinfo_always_fresh
+    arrayinfo_always_fresh(ctx, 'D1')
 
 
 def d5_contexts(ctx):
